@@ -80,7 +80,7 @@ def run(ctx, pid):
     if ctx.quick:
         r0 = rules[ctx.seed % 3]
         plan = [("A", "LONDON", "balance", 4, 254), ("A", "CANCUN", "storage", 3, 254),
-                ("B", "HOMESTEAD", "balance", 3, 0), ("B", r0, "misc", 4, 254), ("A", r0, "nested", 6, 254)]
+                ("B", "HOMESTEAD", "balance", 3, 0), ("B", r0, "misc", 4, 254), ("A", r0, "nested", 7, 254)]
         sims = [("A", "CANCUN", 1500, 14), ("B", "HOMESTEAD", 1500, 14)]
     else:
         plan = [(d, r, t, 4, b) for d in "AB" for r in RULES for t in ("balance", "storage", "misc") for b in (254,)]
